@@ -286,6 +286,12 @@ func (w *World) CheckObject(fm *FileModel, s *Spec, structName string, path stri
 			}
 			continue
 		}
+		if p.Spec.RefRootOf != "" {
+			// an opaque reference by text (to a whole document, to "#", to a definition named elsewhere in the member): its Go type
+			// is decided by the member's own clauses (self-reference / same-node clauses, A-TYP), not by the type table
+			out = append(out, w.checkDefault(fm, p, S, F, ppath)...)
+			continue
+		}
 		out = append(out, w.checkFieldType(fm, p, F, ppath)...)
 		out = append(out, w.checkValue(fm, p.Spec, S, F, ppath, !p.Required || p.Spec.Null != "")...)
 		out = append(out, w.checkDefault(fm, p, S, F, ppath)...)
